@@ -118,6 +118,10 @@ func encodeLeaf(t reflect.Type, x int) reflect.Value {
 			}
 		case reflect.TypeOf(tuPtr{}):
 			v.Field(0).SetInt(int64(x))
+		case c01ExpiryTU:
+			if x != 0 {
+				v.Field(0).Set(reflect.ValueOf(time.Unix(int64(x), 0).UTC()))
+			}
 		}
 	}
 	return v
@@ -156,6 +160,12 @@ func decodeLeaf(v reflect.Value) int {
 			return int(tm.Unix())
 		case reflect.TypeOf(tuPtr{}):
 			return int(v.Field(0).Int())
+		case c01ExpiryTU:
+			tm := v.Field(0).Interface().(time.Time)
+			if tm.IsZero() {
+				return 0
+			}
+			return int(tm.Unix())
 		}
 	}
 	return -1
@@ -298,7 +308,64 @@ type c01Static3 struct {
 	Z  myInt
 }
 
+// two DIFFERENT types that print alike ("main.Expiry"): one is a text-unmarshalable leaf (it embeds time.Time),
+// the other an ordinary nested config struct that must be merged field by field
+func c01MkExpiryTU() reflect.Type {
+	type Expiry struct{ time.Time }
+	return reflect.TypeOf(Expiry{})
+}
+func c01MkExpiryPlain() reflect.Type {
+	type Expiry struct{ Soft, Hard int }
+	return reflect.TypeOf(Expiry{})
+}
+
+var c01ExpiryTU, c01ExpiryPlain = c01MkExpiryTU(), c01MkExpiryPlain()
+
 var c01Statics = []reflect.Type{reflect.TypeOf(c01Static1{}), reflect.TypeOf(c01Static2{}), reflect.TypeOf(c01Static3{})}
+
+// aliasLeaves lets leaves of identical reference type (pointers to NON-struct types, maps, slices) inside v
+// share their memory, as a caller who sets two fields from one variable does.  Such leaves are replaced
+// wholesale by a layer that sets them, so the leaf-wise precedence rule is unaffected: setting one of them
+// must not change the other.  (Pointers to structs are merged in place by design and are left alone.)
+func aliasLeaves(r *RNG, v reflect.Value) {
+	byType := map[reflect.Type][]reflect.Value{}
+	var walk func(x reflect.Value, depth int)
+	walk = func(x reflect.Value, depth int) {
+		if depth > 5 {
+			return
+		}
+		switch x.Kind() {
+		case reflect.Struct:
+			if isTUStruct(x.Type()) {
+				return
+			}
+			for i := 0; i < x.NumField(); i++ {
+				if x.Field(i).CanSet() {
+					walk(x.Field(i), depth+1)
+				}
+			}
+		case reflect.Ptr:
+			if x.Type().Elem().Kind() == reflect.Struct && !isTUStruct(x.Type().Elem()) {
+				if !x.IsNil() {
+					walk(x.Elem(), depth+1)
+				}
+				return
+			}
+			byType[x.Type()] = append(byType[x.Type()], x)
+		case reflect.Map, reflect.Slice:
+			byType[x.Type()] = append(byType[x.Type()], x)
+		}
+	}
+	walk(v, 0)
+	for _, vs := range byType {
+		if len(vs) >= 2 && r.Chance(40) {
+			a, b := vs[r.Intn(len(vs))], vs[r.Intn(len(vs))]
+			if a.CanSet() && !b.IsNil() {
+				a.Set(b)
+			}
+		}
+	}
+}
 
 func genFieldType(r *RNG, depth int) reflect.Type {
 	x := r.Intn(100)
@@ -317,6 +384,8 @@ func genFieldType(r *RNG, depth int) reflect.Type {
 		return reflect.PtrTo(reflect.PtrTo(c01Scalars[r.Intn(len(c01Scalars))]))
 	case x < 66:
 		return reflect.PtrTo(c01Colls[r.Intn(len(c01Colls))])
+	case x < 68:
+		return []reflect.Type{c01ExpiryTU, c01ExpiryPlain, reflect.PtrTo(c01ExpiryPlain), reflect.PtrTo(c01ExpiryTU)}[r.Intn(4)]
 	case x < 70:
 		return reflect.TypeOf((chan int)(nil))
 	case x < 73:
@@ -530,6 +599,7 @@ func checkC01(c *Ctx) {
 		}
 		def := reflect.New(T)
 		genBase(r, def.Elem(), 3)
+		aliasLeaves(r, def.Elem())
 		defDesc := valDesc(def.Elem()) // before compose: inputs must not change (C02 checks that in depth)
 		tDesc := tt.tyDesc(T)
 		cs := map[string]any{"type": T.String(), "model_type": tDesc, "default": defDesc}
@@ -553,6 +623,7 @@ func checkC01(c *Ctx) {
 		for k := range layers {
 			lv := reflect.New(PT)
 			genLayer(r, lv.Elem(), pset)
+			aliasLeaves(r, lv.Elem())
 			layerStructs = append(layerStructs, lv.Elem())
 			ld := valDesc(lv.Elem())
 			ldescs = append(ldescs, ld)
